@@ -93,6 +93,12 @@ def gen_param_store(rng, sol, p, apis=('cxx',), steps=60, variant='exc'):
     S = [['init', p, 'cxx', h, sol]] + sweep([(h, sol)], p, None, restore=False)
     badp = ['no_such_parameter', '', e['pars'][0].upper() + '_', ' ' + e['pars'][0]] if e['pars'] else ['nope']
     badv = ['no_such_vector', 'vec', '']
+    # every parameter gets its own distinct value (random order), then everything is read back: two names
+    # bound to one storage location, or a name bound to the wrong one, cannot survive this
+    order = list(e['pars']); rng.shuffle(order)
+    for i, k in enumerate(order):
+        S.append(['setp', p, pick_api(rng, p, apis), k, hexf(100.0 + i + exact_double(rng, 0.0, 0.5))])
+    S += sweep([(h, sol)], p, None, restore=False)
     for _ in range(steps):
         r = rng.random()
         a = pick_api(rng, p, apis)
@@ -139,6 +145,8 @@ def admissible_point(rng, sol, sig):
     n = sig.count('S')
     if sol == 'sod_1d':
         return [hexf(exact_double(rng, -0.9, 0.9)), hexf(exact_double(rng, 0.25, 0.75))][:n]
+    if sol == 'fans_sa_steady_wall_bounded':
+        return [hexf(exact_double(rng, 0.2, 0.9)), hexf(round(10.0 ** rng.uniform(-2.0, 0.0) * 2 ** 20) / 2.0 ** 20)][:n]
     return [hexf(exact_double(rng, 0.125, 0.875)) for _ in range(n)]
 
 
@@ -457,6 +465,11 @@ def around_default(rng, sol, k, spread=0.2, zero=(0.05, 0.3)):
 def sa_chem_param(rng, sol, k):
     if sol == 'rans_sa' and k == 're_tau':
         return exact_double(rng, 50, 2000)
+    if sol == 'fans_sa_steady_wall_bounded' and k == 'mu':
+        # the laminar viscosity over decades: with a small one the Johnson-Allmaras limiter branch of the closure is active near the wall
+        # (measured: the limiter is active for mu around 1e-3 at wall distances 0.01..0.1)
+        lo, hi = (-3.4, -2.6) if rng.random() < 0.5 else (-4.0, -0.5)
+        return round(10.0 ** rng.uniform(lo, hi) * 2 ** 30) / 2.0 ** 30
     if sol == 'fans_sa_transient_free_shear':
         if k in ('u_t', 'v_t'):
             return sgn(rng) * exact_double(rng, 0.2, 1.0)
@@ -488,18 +501,34 @@ def closed_param(rng, sol, k):
     return sgn(rng) * u(0.5, 3.0)
 
 
-def value_point(rng, sol, sig):
+def value_point(rng, sol, sig, vals=None):
+    """vals given: an EDGE point -- every spatial coordinate within 2^-k (k = 4..30) of a length-scale parameter
+    (+-L, +-Lx, ...), where fields built to vanish on the boundary of the box lose their leading terms and a
+    cancellation-prone rewrite shows"""
     n = sig.count('S')
+    lens = sorted(k for k in (vals or {}) if k[0] == 'L' and vals[k] > 0)
+    if lens and sol not in ('rans_sa', 'fans_sa_steady_wall_bounded', 'euler_chem_1d', 'sod_1d', 'cp_normal', 'radiation_integrated_intensity'):
+        nsp = CAT[sol]['dim'] if CAT[sol]['dim'] < 4 else 3
+        pt = []
+        for i in range(n):
+            if i >= nsp:
+                pt.append(exact_double(rng, 0.0, 2.0)); continue
+            L = vals[lens[i % len(lens)]]
+            s = 1.0 if sol.startswith('axi') and i == 0 else sgn(rng)
+            pt.append(s * L * (1.0 - 2.0 ** -rng.randint(4, 30)))
+        return [hexf(v) for v in pt]
     if sol == 'rans_sa':
         return [hexf(exact_double(rng, 0.05, 0.95))]
-    if sol == 'fans_sa_steady_wall_bounded':
-        return [hexf(exact_double(rng, 0.2, 2.0)) for _ in range(n)]
+    if sol == 'fans_sa_steady_wall_bounded':      # x, y > 0; wall distances over two decades
+        return [hexf(exact_double(rng, 0.2, 2.0)), hexf(round(10.0 ** rng.uniform(-2.0, -0.3) * 2 ** 20) / 2.0 ** 20)][:n]     # nu_sa > 0 needs y < kappa u_tau / alpha
     if sol == 'euler_chem_1d':
         return [hexf(exact_double(rng, 0.0, 8.0))]
     if sol == 'sod_1d':
         return [hexf(exact_double(rng, -1.5, 1.5)), hexf(exact_double(rng, 0.25, 1.0))][:n]
     if sol == 'cp_normal':
         return [hexf(exact_double(rng, -3.0, 3.0)) for _ in range(n)]
+    if sol == 'radiation_integrated_intensity':
+        return [hexf(exact_double(rng, 0.05, 1.0)) for _ in range(n)]
     axi = sol.startswith('axi')
     pt = []
     for i in range(n):
@@ -553,6 +582,13 @@ def gen_values(rng, sol, precs=('d', 'ld'), nassign=2, npts=3, evaluators=None, 
         data = None
         if sol == 'cp_normal':
             data = [exact_double(rng, -3.0, 3.0) for _ in range(rng.randint(1, 8))]
+        rad = None
+        if sol == 'radiation_integrated_intensity':
+            n = rng.randint(1, 8)
+            rad = {'vec_amp': [exact_double(rng, 0.5, 3.0) for _ in range(n)], 'vec_mean': [exact_double(rng, 0.0, 1.0) for _ in range(n)],
+                   'vec_stdev': [exact_double(rng, 0.1, 0.5) for _ in range(n)]}
+            if rng.random() < 0.25:      # unequal lengths: the documented guard value -1
+                rad[rng.choice(sorted(rad))].append(exact_double(rng, 0.2, 0.4))
         cbk = [rng.choice(['const', 'arr', 'poly']), hexf(exact_double(rng, 0.5, 2.0)), hexf(exact_double(rng, 0.1, 0.9)), hexf(exact_double(rng, 0.1, 2.0))]
         cbk2 = [rng.choice(['const', 'arr', 'poly']), hexf(exact_double(rng, 2.5, 4.0)), hexf(exact_double(rng, 0.1, 0.9)), hexf(exact_double(rng, 0.1, 2.0))]
         pts = []
@@ -571,6 +607,10 @@ def gen_values(rng, sol, precs=('d', 'ld'), nassign=2, npts=3, evaluators=None, 
                 if sol == 'cp_normal' and 'I' in sig:
                     dis = [rng.randint(0, 20)]
                 pts.append((fn, sig, value_point(rng, sol, sig), dis[0]))
+        if any(k[0] == 'L' for k in e['pars']):
+            for fn, sig in caps:
+                if rng.random() < 0.5:
+                    pts.append((fn, sig, value_point(rng, sol, sig, vals), rng.randint(1, e['dim']) if 'I' in sig else None))
         last_pts = pts[-len(caps):]
         for p in precs:
             for k in e['pars']:
@@ -583,6 +623,9 @@ def gen_values(rng, sol, precs=('d', 'ld'), nassign=2, npts=3, evaluators=None, 
                 S.append(['setp', p, 'cxx', 'mu', str((gm - 1) / (gm + 1))])
             if data is not None:
                 S.append(['setv', p, 'cxx', 'vec_data', len(data)] + [hexf(v) for v in data])
+            if rad is not None:
+                for k in sorted(rad):
+                    S.append(['setv', p, 'cxx', k, len(rad[k])] + [hexf(v) for v in rad[k]])
             for fn, sig, pt, di in pts:
                 S.append(eval_line(p, 'cxx', fn, sig, pt, di, cbk))
                 if 'F' in sig:   # the same point with another caller-supplied function right away
